@@ -89,8 +89,8 @@ def ann_type(prog: Program, ann: ast.expr | None, fi: FuncInfo) -> frozenset:
             if k == "class":
                 if prog.is_enum(p):
                     return frozenset({K})
-                if p.name in ("BackoffContext", "Classification") or p.is_dataclass:
-                    return frozenset({("dc", p.qual)})
+                if p.name in ("BackoffContext", "Classification") or p.is_dataclass or any(ast.unparse(b).split(".")[-1] == "NamedTuple" for b in p.node.bases):
+                    return frozenset({("dc", p.qual)})  # (a NamedTuple is a record like a dataclass: annotated fields)
                 if inst_fields(prog, p) is not None:
                     return frozenset({("inst", p.qual)})  # a plain class of the library whose fields are set in __init__
                 return frozenset({O})
